@@ -3,6 +3,7 @@ CONSTANTS
   Procs <- P2
   Types <- XpTypes
   ChildSeq <- XpChild
+  Invalid <- NoneInvalid
   Pkg <- XpPkg
   CallChoices <- XpCalls2
   Guard = "none"
